@@ -41,10 +41,10 @@ type hline struct{ raw, key, val string }
 // line (`^[A-Z]+\s`), which is why its key has a dash and lower case letters.
 var hAlpha = []hline{
 	{"X-A: 1", "X-A", "1"},
-	{"x-a: 2", "x-a", "2"},                               // case variant: a different key
-	{"X-A: 3", "X-A", "3"},                               // repeated key
-	{"X-Sp :   v w  ", "X-Sp", "v w"},                    // spacing around key and value
-	{"X-Z: own", "X-Z", "own"},                           // overlaps the "other key" defaults
+	{"x-a: 2", "x-a", "2"},                                       // case variant: a different key
+	{"X-A: 3", "X-A", "3"},                                       // repeated key
+	{"X-Sp :   v w  ", "X-Sp", "v w"},                            // spacing around key and value
+	{"X-Z: own", "X-Z", "own"},                                   // overlaps the "other key" defaults
 	{"X-T: http://z.test/?a=1:2", "X-T", "http://z.test/?a=1:2"}, // colons in the value (thorough)
 	{"X-C: v#1 # not a comment", "X-C", "v#1 # not a comment"},   // '#' inside a line (thorough)
 }
@@ -276,10 +276,10 @@ func (t tspec) emit(ls []line, pos int) ([]line, own) {
 const sepDirect = 0
 
 var sepLines = [][]line{
-	nil,                                      // 0: the next request line follows directly
-	{{'E', ""}},                              // 1: one blank line
-	{{'E', ""}, {'C', comment1}, {'E', ""}},  // 2: blank, comment, blank
-	{{'E', "  "}},                            // 3: a blank line made of spaces (thorough)
+	nil,                                     // 0: the next request line follows directly
+	{{'E', ""}},                             // 1: one blank line
+	{{'E', ""}, {'C', comment1}, {'E', ""}}, // 2: blank, comment, blank
+	{{'E', "  "}},                           // 3: a blank line made of spaces (thorough)
 	{{'E', ""}, {'E', "\t"}, {'C', comment2}}, // 4: two blank lines, then a comment right before the request line (thorough)
 }
 
@@ -699,6 +699,22 @@ func run(k *kase) (f *fail, calls int) {
 				}
 			}
 		}
+		// what the attack command does next in eager mode: the list goes into a static targeter, which
+		// hands the described targets out in the described order, round after round
+		if len(got) >= 2 {
+			st := vegeta.NewStaticTargeter(got...)
+			for i := 0; i < 2*len(got); i++ {
+				var t vegeta.Target
+				calls++
+				if err := st(&t); err != nil {
+					return &fail{"static-after-eager:error", err.Error()}, calls
+				}
+				w := want[i%len(want)]
+				if d := diffFields(&t, w.Method, w.URL, w.Body, w.Hdr); len(d) > 0 {
+					return &fail{"static-after-eager:order", fmt.Sprintf("draw #%d: got %s want %s (target #%d of the document)", i+1, showTarget(&t), showExp(w), i%len(want)+1)}, calls
+				}
+			}
+		}
 		return nil, calls
 	}
 
@@ -930,12 +946,12 @@ func TestC14(t *testing.T) {
 	}
 
 	thorough := ev.Thorough()
-	nH := ev.Pick(5, 7)          // header line alphabet
-	maxH := 3                    // header lines with ALL comment placements
-	nDv := ev.Pick(4, dvCount)   // default header sets
-	nBodies := ev.Pick(2, 4)     // body alphabet for stage A (0 = none)
-	nSep := ev.Pick(3, 5)        // separators
-	nStyles := ev.Pick(2, 3)     // JSON styles
+	nH := ev.Pick(5, 7)      // header line alphabet
+	maxH := 3                // header lines with ALL comment placements
+	nDv := dvCount           // default header sets (the last one has several keys: copies of their values must not touch each other)
+	nBodies := ev.Pick(2, 4) // body alphabet for stage A (0 = none)
+	nSep := ev.Pick(3, 5)    // separators
+	nStyles := ev.Pick(2, 3) // JSON styles
 	R.Set("header_line_alphabet", nH)
 	R.Set("max_header_lines_all_comment_placements", maxH)
 	R.Set("default_header_sets", nDv)
@@ -1137,12 +1153,12 @@ func TestC14(t *testing.T) {
 	// ---- stage B: 2 and 3 targets from a rule-built pool ----------------------
 	// pool = base shapes x comment pattern {none, one comment after every line, (thorough) two}
 	base := []tspec{
-		{},                              // request line only
-		{h: []int{0}},                   // one header that overlaps the X-A defaults
-		{h: []int{2, 4}},                // X-A again with another value, and the X-Z key
-		{body: 1},                       // body only
-		{h: []int{0}, body: 1},          // header + body
-		{h: []int{1, 3}},                // case variant + spacing
+		{},                     // request line only
+		{h: []int{0}},          // one header that overlaps the X-A defaults
+		{h: []int{2, 4}},       // X-A again with another value, and the X-Z key
+		{body: 1},              // body only
+		{h: []int{0}, body: 1}, // header + body
+		{h: []int{1, 3}},       // case variant + spacing
 	}
 	if thorough {
 		base = append(base, tspec{h: []int{0, 1, 2}}, tspec{h: []int{2}, body: 2})
